@@ -2780,7 +2780,7 @@ class VirtualArrayType(ContentType):
             nextviewtype,
             proxynext._getvalue(),
             proxynext,
-            numba.intp,
+            attype,
             atval,
             wrapneg,
             checkbounds,
